@@ -8,50 +8,117 @@ hypotheses and linear arithmetic over `List.count`.
 import Selene.Scope.Ordered
 namespace Selene.Scope.SpecProof
 open Selene.Lua Selene.Scope.Spec Selene.Scope.Ordered
+open Selene.Scope.Core (Ans)
 
 /-- the occurrences the resolution property speaks about: identifier reads (not plain assignment
     targets), `...` of the main chunk excluded -/
 def counted (oc : Occ) : Bool := oc.kind != .target && !(oc.name == "..." && !oc.inFunction)
 
-def reads (o : Out) : List Ans := (o.occs.filter counted).map fun oc => (oc.tok, oc.binding.map (·.1))
+def reads (o : Out) : List (Nat × Option Nat) := (o.occs.filter counted).map fun oc => (oc.tok, oc.binding.map (·.1))
 
-theorem reads_occ (o : Out) (c : Ctx) (env : Env) (t : Tok) (k : OccKind) (hk : k ≠ .target) :
-    reads (o.occ c env t k) = reads o ++ sRead c.inFunction env t := by
+set_option linter.unusedSectionVars false
+variable [Core.NameFilter]
+
+/-- the declarations the shadowing property speaks about (`...` is no declaration of interest, nor
+    are names the filter drops), each with the local declaration its name denoted just before -/
+
+def shadows (o : Out) : List (Nat × Option Nat) :=
+  (o.decls.filter fun d => d.kind != .varargParam && Core.NameFilter.keep d.name).map fun d => (d.tok, d.visibleSameName.map (·.1))
+
+def readsOf (o : Out) : List Ans := (o.occs.filter counted).map fun oc => .read oc.tok (oc.binding.map (·.1))
+def declsOf (o : Out) : List Ans :=
+  (o.decls.filter fun d => d.kind != .varargParam && Core.NameFilter.keep d.name).map fun d => .decl d.tok (d.visibleSameName.map (·.1))
+
+/-- everything the resolver answers: reads and declarations -/
+def log (o : Out) : List Ans := readsOf o ++ declsOf o
+
+variable (a : Ans)
+
+theorem log_occ (o : Out) (c : Ctx) (env : Env) (t : Tok) (k : OccKind) (hk : k ≠ .target) :
+    (log (o.occ c env t k)).count a = (log o).count a + (sRead c.inFunction env t).count a := by
   have hc : counted { tok := t.idx, name := t.text, kind := k, binding := env.lookup t.text, inFunction := c.inFunction } =
       !(t.text == "..." && !c.inFunction) := by
     cases k <;> simp_all [counted]
-  unfold reads Out.occ sRead
-  simp only [List.filter_append, List.map_append, List.filter_cons, List.filter_nil, hc]
-  by_cases h1 : t.text = "..." <;> cases h2 : c.inFunction <;> simp [h1, look]
+  have : readsOf (o.occ c env t k) = readsOf o ++ sRead c.inFunction env t := by
+    unfold readsOf Out.occ sRead
+    simp only [List.filter_append, List.map_append, List.filter_cons, List.filter_nil, hc]
+    by_cases h1 : t.text = "..." <;> cases h2 : c.inFunction <;> simp [h1, look]
+  have hd : declsOf (o.occ c env t k) = declsOf o := rfl
+  unfold log
+  rw [this, hd]
+  simp only [List.count_append]; omega
 
-theorem reads_occ_target (o : Out) (c : Ctx) (env : Env) (t : Tok) :
-    reads (o.occ c env t .target) = reads o := by
-  unfold reads Out.occ
-  simp [counted]
+theorem log_occ_target (o : Out) (c : Ctx) (env : Env) (t : Tok) :
+    log (o.occ c env t .target) = log o := by
+  have : readsOf (o.occ c env t .target) = readsOf o := by
+    unfold readsOf Out.occ
+    simp [counted]
+  unfold log; rw [this]; rfl
 
-theorem reads_congr {o o' : Out} (h : o'.occs = o.occs) : reads o' = reads o := by
-  unfold reads; rw [h]
+theorem log_congr {o o' : Out} (h : o'.occs = o.occs) (h2 : o'.decls = o.decls) : log o' = log o := by
+  unfold log readsOf declsOf; rw [h, h2]
 
-theorem declareAll_spec (k : DeclKind) (names : List Tok) (o : Out) (env : Env) (acc : List Nat) :
-    (declareAll o env k names acc).1.occs = o.occs ∧ (declareAll o env k names acc).2 = bindAll env k names := by
+theorem log_declare (o : Out) (env : Env) (t : Tok) (name : String) (k : DeclKind) (acc : List Nat)
+    (hk : k ≠ .varargParam) :
+    (log (declare o env t name k acc).1).count a = (log o).count a + (sDecl env t name).count a := by
+  have h1 : readsOf (declare o env t name k acc).1 = readsOf o := rfl
+  have h2 : declsOf (declare o env t name k acc).1 = declsOf o ++ sDecl env t name := by
+    unfold declsOf declare sDecl
+    simp only [List.filter_append, List.map_append, List.filter_cons, List.filter_nil]
+    have : (k != DeclKind.varargParam) = true := by cases k <;> simp_all
+    by_cases hkeep : Core.NameFilter.keep name = true <;> simp [this, look, hkeep]
+  unfold log
+  rw [h1, h2]; simp only [List.count_append]; omega
+
+theorem log_declare' (o o' : Out) (env : Env) (t : Tok) (name : String) (k : DeclKind) (acc : List Nat)
+    (hk : k ≠ .varargParam) (h1 : o'.occs = o.occs) (h2 : o'.decls = o.decls) :
+    (log (declare o' env t name k acc).1).count a = (log o).count a + (sDecl env t name).count a := by
+  rw [log_declare a o' env t name k acc hk, log_congr h1 h2]
+
+theorem log_declare_vararg (o : Out) (env : Env) (t : Tok) (name : String) (acc : List Nat) :
+    log (declare o env t name .varargParam acc).1 = log o := by
+  have h2 : declsOf (declare o env t name .varargParam acc).1 = declsOf o := by
+    unfold declsOf declare
+    simp [List.filter_append]
+  unfold log; rw [h2]; rfl
+
+theorem declare_env (o : Out) (env : Env) (t : Tok) (name : String) (k : DeclKind) (acc : List Nat) :
+    (declare o env t name k acc).2 = bindTok env t name k := rfl
+
+theorem declareAll_spec (k : DeclKind) (hk : k ≠ .varargParam) (names : List Tok) (o : Out) (env : Env) (acc : List Nat) :
+    (log (declareAll o env k names acc).1).count a = (log o).count a + (sDeclAll env k names).count a ∧
+    (declareAll o env k names acc).2 = bindAll env k names := by
   induction names generalizing o env acc with
-  | nil => exact ⟨rfl, rfl⟩
+  | nil => exact ⟨by simp [declareAll, sDeclAll], rfl⟩
   | cons t rest ih =>
     obtain ⟨h1, h2⟩ := ih (declare o env t t.text k acc).1 (declare o env t t.text k acc).2 (t.idx :: acc)
-    exact ⟨h1, h2⟩
+    refine ⟨?_, h2⟩
+    show (log (declareAll (declare o env t t.text k acc).1 (declare o env t t.text k acc).2 k rest (t.idx :: acc)).1).count a = _
+    rw [h1, log_declare a o env t t.text k acc hk]
+    show _ = _ + (sDecl env t t.text ++ sDeclAll (bindTok env t t.text k) k rest).count a
+    simp only [List.count_append, declare_env]; omega
 
 theorem declareParams_spec (ps : List Param) (o : Out) (env : Env) (acc : List Nat) :
-    (declareParams o env ps acc).1.occs = o.occs ∧ (declareParams o env ps acc).2 = bindParams env ps := by
+    (log (declareParams o env ps acc).1).count a = (log o).count a + (sDeclParams env ps).count a ∧
+    (declareParams o env ps acc).2 = bindParams env ps := by
   induction ps generalizing o env acc with
-  | nil => exact ⟨rfl, rfl⟩
+  | nil => exact ⟨by simp [declareParams, sDeclParams], rfl⟩
   | cons p rest ih =>
     cases p with
     | name t =>
       obtain ⟨h1, h2⟩ := ih (declare o env t t.text .param acc).1 (declare o env t t.text .param acc).2 (t.idx :: acc)
-      exact ⟨h1, h2⟩
+      refine ⟨?_, h2⟩
+      show (log (declareParams (declare o env t t.text .param acc).1 (declare o env t t.text .param acc).2 rest (t.idx :: acc)).1).count a = _
+      rw [h1, log_declare a o env t t.text .param acc (by simp)]
+      show _ = _ + (sDecl env t t.text ++ sDeclParams (bindTok env t t.text .param) rest).count a
+      simp only [List.count_append, declare_env]; omega
     | dots t =>
       obtain ⟨h1, h2⟩ := ih (declare o env t "..." .varargParam acc).1 (declare o env t "..." .varargParam acc).2 (t.idx :: acc)
-      exact ⟨h1, h2⟩
+      refine ⟨?_, h2⟩
+      show (log (declareParams (declare o env t "..." .varargParam acc).1 (declare o env t "..." .varargParam acc).2 rest (t.idx :: acc)).1).count a = _
+      rw [h1, log_declare_vararg]
+      show _ = _ + (sDeclParams (bindTok env t "..." .varargParam) rest).count a
+      simp only [declare_env]
 
 /-- eager reads of the indexed targets of an assignment -/
 def tV (inF : Bool) (env : Env) : VarList → List Ans
@@ -99,156 +166,157 @@ theorem sSs_count (a : Ans) (inF : Bool) (env : Env) (ss : SuffixList) :
     simp only [List.count_append, sSs_count a inF env rest]; omega
 
 section
-variable (a : Ans)
 
 mutual
 theorem rExpr_count (e : Expr) (o : Out) (c : Ctx) (env : Env) :
-    (reads (rExpr o c env e)).count a =
-      (reads o).count a + (eE c.inFunction env e).count a + (dE c.inFunction env e).count a := by
+    (log (rExpr o c env e)).count a =
+      (log o).count a + (eE c.inFunction env e).count a + (dE c.inFunction env e).count a := by
   cases e with
   | paren _ e => exact rExpr_count e o c env
   | un _ _ e => exact rExpr_count e o c env
   | bin _ l _ r =>
-    show (reads (rExpr (rExpr o c env l) c env r)).count a = (reads o).count a +
+    show (log (rExpr (rExpr o c env l) c env r)).count a = (log o).count a +
       (eE c.inFunction env l ++ eE c.inFunction env r).count a + (dE c.inFunction env l ++ dE c.inFunction env r).count a
     rw [rExpr_count r, rExpr_count l]; simp only [List.count_append]; omega
   | func _ _ body =>
-    show (reads (rBody o c env none body)).count a = (reads o).count a + ([] : List Ans).count a + (sBody env none body).count a
+    show (log (rBody o c env none body)).count a = (log o).count a + ([] : List Ans).count a + (sBody env none body).count a
     rw [rBody_count body]; simp
   | call f => exact rFCall_count f o c env
   | tbl _ fs => exact rFields_count fs o c env
   | dots t =>
-    show (reads (o.occ c env t .value)).count a = (reads o).count a + (sRead c.inFunction env t).count a + ([] : List Ans).count a
-    rw [reads_occ _ _ _ _ _ (by simp)]; simp
+    show (log (o.occ c env t .value)).count a = (log o).count a + (sRead c.inFunction env t).count a + ([] : List Ans).count a
+    rw [log_occ a _ _ _ _ _ (by simp)]; simp
   | var v => exact rVar_count v o c env .value (by simp)
-  | nil _ => show (reads o).count a = (reads o).count a + ([] : List Ans).count a + ([] : List Ans).count a; simp
-  | true_ _ => show (reads o).count a = (reads o).count a + ([] : List Ans).count a + ([] : List Ans).count a; simp
-  | false_ _ => show (reads o).count a = (reads o).count a + ([] : List Ans).count a + ([] : List Ans).count a; simp
-  | num _ => show (reads o).count a = (reads o).count a + ([] : List Ans).count a + ([] : List Ans).count a; simp
-  | str _ _ _ => show (reads o).count a = (reads o).count a + ([] : List Ans).count a + ([] : List Ans).count a; simp
-  | unsupported _ => show (reads o).count a = (reads o).count a + ([] : List Ans).count a + ([] : List Ans).count a; simp
+  | nil _ => show (log o).count a = (log o).count a + ([] : List Ans).count a + ([] : List Ans).count a; simp
+  | true_ _ => show (log o).count a = (log o).count a + ([] : List Ans).count a + ([] : List Ans).count a; simp
+  | false_ _ => show (log o).count a = (log o).count a + ([] : List Ans).count a + ([] : List Ans).count a; simp
+  | num _ => show (log o).count a = (log o).count a + ([] : List Ans).count a + ([] : List Ans).count a; simp
+  | str _ _ _ => show (log o).count a = (log o).count a + ([] : List Ans).count a + ([] : List Ans).count a; simp
+  | unsupported _ => show (log o).count a = (log o).count a + ([] : List Ans).count a + ([] : List Ans).count a; simp
 theorem rExprs_count (es : ExprList) (o : Out) (c : Ctx) (env : Env) :
-    (reads (rExprs o c env es)).count a =
-      (reads o).count a + (eEs c.inFunction env es).count a + (dEs c.inFunction env es).count a := by
+    (log (rExprs o c env es)).count a =
+      (log o).count a + (eEs c.inFunction env es).count a + (dEs c.inFunction env es).count a := by
   cases es with
-  | nil => show (reads o).count a = (reads o).count a + ([] : List Ans).count a + ([] : List Ans).count a; simp
+  | nil => show (log o).count a = (log o).count a + ([] : List Ans).count a + ([] : List Ans).count a; simp
   | cons e rest =>
-    show (reads (rExprs (rExpr o c env e) c env rest)).count a = (reads o).count a +
+    show (log (rExprs (rExpr o c env e) c env rest)).count a = (log o).count a +
       (eE c.inFunction env e ++ eEs c.inFunction env rest).count a + (dE c.inFunction env e ++ dEs c.inFunction env rest).count a
     rw [rExprs_count rest, rExpr_count e]; simp only [List.count_append]; omega
 theorem rFields_count (fs : FieldList) (o : Out) (c : Ctx) (env : Env) :
-    (reads (rFields o c env fs)).count a =
-      (reads o).count a + (eFs c.inFunction env fs).count a + (dFs c.inFunction env fs).count a := by
+    (log (rFields o c env fs)).count a =
+      (log o).count a + (eFs c.inFunction env fs).count a + (dFs c.inFunction env fs).count a := by
   cases fs with
-  | nil => show (reads o).count a = (reads o).count a + ([] : List Ans).count a + ([] : List Ans).count a; simp
+  | nil => show (log o).count a = (log o).count a + ([] : List Ans).count a + ([] : List Ans).count a; simp
   | cons f rest =>
     cases f with
     | exprKey _ k v =>
-      show (reads (rFields (rExpr (rExpr o c env k) c env v) c env rest)).count a = (reads o).count a +
+      show (log (rFields (rExpr (rExpr o c env k) c env v) c env rest)).count a = (log o).count a +
         ((eE c.inFunction env k ++ eE c.inFunction env v) ++ eFs c.inFunction env rest).count a +
         ((dE c.inFunction env k ++ dE c.inFunction env v) ++ dFs c.inFunction env rest).count a
       rw [rFields_count rest, rExpr_count v, rExpr_count k]; simp only [List.count_append]; omega
     | nameKey _ _ v =>
-      show (reads (rFields (rExpr o c env v) c env rest)).count a = (reads o).count a +
+      show (log (rFields (rExpr o c env v) c env rest)).count a = (log o).count a +
         (eE c.inFunction env v ++ eFs c.inFunction env rest).count a +
         (dE c.inFunction env v ++ dFs c.inFunction env rest).count a
       rw [rFields_count rest, rExpr_count v]; simp only [List.count_append]; omega
     | noKey v =>
-      show (reads (rFields (rExpr o c env v) c env rest)).count a = (reads o).count a +
+      show (log (rFields (rExpr o c env v) c env rest)).count a = (log o).count a +
         (eE c.inFunction env v ++ eFs c.inFunction env rest).count a +
         (dE c.inFunction env v ++ dFs c.inFunction env rest).count a
       rw [rFields_count rest, rExpr_count v]; simp only [List.count_append]; omega
     | unsupported _ =>
-      show (reads (rFields o c env rest)).count a = (reads o).count a +
+      show (log (rFields o c env rest)).count a = (log o).count a +
         (([] : List Ans) ++ eFs c.inFunction env rest).count a + (([] : List Ans) ++ dFs c.inFunction env rest).count a
       rw [rFields_count rest]; simp
 theorem rVar_count (v : Var) (o : Out) (c : Ctx) (env : Env) (k : OccKind) (hk : k ≠ .target) :
-    (reads (rVar o c env v k)).count a =
-      (reads o).count a + (eV c.inFunction env v).count a + (dV c.inFunction env v).count a := by
+    (log (rVar o c env v k)).count a =
+      (log o).count a + (eV c.inFunction env v).count a + (dV c.inFunction env v).count a := by
   cases v with
   | name t =>
-    show (reads (o.occ c env t k)).count a = (reads o).count a + (sRead c.inFunction env t).count a + ([] : List Ans).count a
-    rw [reads_occ _ _ _ _ _ hk]; simp
+    show (log (o.occ c env t k)).count a = (log o).count a + (sRead c.inFunction env t).count a + ([] : List Ans).count a
+    rw [log_occ a _ _ _ _ _ hk]; simp
   | expr _ p ss =>
-    show (reads (rSuffixes (rPrefix o c env p k) c env ss)).count a = (reads o).count a +
+    show (log (rSuffixes (rPrefix o c env p k) c env ss)).count a = (log o).count a +
       (eP c.inFunction env p ++ eSs c.inFunction env ss).count a + (dP c.inFunction env p ++ dSs c.inFunction env ss).count a
     rw [rSuffixes_count ss, rPrefix_count p o c env k hk]; simp only [List.count_append]; omega
 theorem rPrefix_count (p : Prefix) (o : Out) (c : Ctx) (env : Env) (k : OccKind) (hk : k ≠ .target) :
-    (reads (rPrefix o c env p k)).count a =
-      (reads o).count a + (eP c.inFunction env p).count a + (dP c.inFunction env p).count a := by
+    (log (rPrefix o c env p k)).count a =
+      (log o).count a + (eP c.inFunction env p).count a + (dP c.inFunction env p).count a := by
   cases p with
   | name t =>
-    show (reads (o.occ c env t k)).count a = (reads o).count a + (sRead c.inFunction env t).count a + ([] : List Ans).count a
-    rw [reads_occ _ _ _ _ _ hk]; simp
+    show (log (o.occ c env t k)).count a = (log o).count a + (sRead c.inFunction env t).count a + ([] : List Ans).count a
+    rw [log_occ a _ _ _ _ _ hk]; simp
   | expr e => exact rExpr_count e o c env
 theorem rSuffixes_count (ss : SuffixList) (o : Out) (c : Ctx) (env : Env) :
-    (reads (rSuffixes o c env ss)).count a =
-      (reads o).count a + (eSs c.inFunction env ss).count a + (dSs c.inFunction env ss).count a := by
+    (log (rSuffixes o c env ss)).count a =
+      (log o).count a + (eSs c.inFunction env ss).count a + (dSs c.inFunction env ss).count a := by
   cases ss with
-  | nil => show (reads o).count a = (reads o).count a + ([] : List Ans).count a + ([] : List Ans).count a; simp
+  | nil => show (log o).count a = (log o).count a + ([] : List Ans).count a + ([] : List Ans).count a; simp
   | cons s rest =>
     cases s with
     | dot _ _ =>
-      show (reads (rSuffixes o c env rest)).count a = (reads o).count a +
+      show (log (rSuffixes o c env rest)).count a = (log o).count a +
         (([] : List Ans) ++ eSs c.inFunction env rest).count a + (([] : List Ans) ++ dSs c.inFunction env rest).count a
       rw [rSuffixes_count rest]; simp
     | idx _ e =>
-      show (reads (rSuffixes (rExpr o c env e) c env rest)).count a = (reads o).count a +
+      show (log (rSuffixes (rExpr o c env e) c env rest)).count a = (log o).count a +
         (eE c.inFunction env e ++ eSs c.inFunction env rest).count a + (dE c.inFunction env e ++ dSs c.inFunction env rest).count a
       rw [rSuffixes_count rest, rExpr_count e]; simp only [List.count_append]; omega
     | args _ ar =>
-      show (reads (rSuffixes (rArgs o c env ar) c env rest)).count a = (reads o).count a +
+      show (log (rSuffixes (rArgs o c env ar) c env rest)).count a = (log o).count a +
         (eA c.inFunction env ar ++ eSs c.inFunction env rest).count a + (dA c.inFunction env ar ++ dSs c.inFunction env rest).count a
       rw [rSuffixes_count rest, rArgs_count ar]; simp only [List.count_append]; omega
     | meth _ _ ar =>
-      show (reads (rSuffixes (rArgs o c env ar) c env rest)).count a = (reads o).count a +
+      show (log (rSuffixes (rArgs o c env ar) c env rest)).count a = (log o).count a +
         (eA c.inFunction env ar ++ eSs c.inFunction env rest).count a + (dA c.inFunction env ar ++ dSs c.inFunction env rest).count a
       rw [rSuffixes_count rest, rArgs_count ar]; simp only [List.count_append]; omega
     | unsupported _ =>
-      show (reads (rSuffixes o c env rest)).count a = (reads o).count a +
+      show (log (rSuffixes o c env rest)).count a = (log o).count a +
         (([] : List Ans) ++ eSs c.inFunction env rest).count a + (([] : List Ans) ++ dSs c.inFunction env rest).count a
       rw [rSuffixes_count rest]; simp
 theorem rArgs_count (ar : Args) (o : Out) (c : Ctx) (env : Env) :
-    (reads (rArgs o c env ar)).count a =
-      (reads o).count a + (eA c.inFunction env ar).count a + (dA c.inFunction env ar).count a := by
+    (log (rArgs o c env ar)).count a =
+      (log o).count a + (eA c.inFunction env ar).count a + (dA c.inFunction env ar).count a := by
   cases ar with
   | parens _ es => exact rExprs_count es o c env
-  | str _ _ _ => show (reads o).count a = (reads o).count a + ([] : List Ans).count a + ([] : List Ans).count a; simp
+  | str _ _ _ => show (log o).count a = (log o).count a + ([] : List Ans).count a + ([] : List Ans).count a; simp
   | tbl _ fs => exact rFields_count fs o c env
 theorem rFCall_count (f : FCall) (o : Out) (c : Ctx) (env : Env) :
-    (reads (rFCall o c env f)).count a =
-      (reads o).count a + (eC c.inFunction env f).count a + (dC c.inFunction env f).count a := by
+    (log (rFCall o c env f)).count a =
+      (log o).count a + (eC c.inFunction env f).count a + (dC c.inFunction env f).count a := by
   cases f with
   | mk _ p ss =>
-    show (reads (rSuffixes (rPrefix o c env p .value) c env ss)).count a = (reads o).count a +
+    show (log (rSuffixes (rPrefix o c env p .value) c env ss)).count a = (log o).count a +
       (eP c.inFunction env p ++ eSs c.inFunction env ss).count a + (dP c.inFunction env p ++ dSs c.inFunction env ss).count a
     rw [rSuffixes_count ss, rPrefix_count p o c env .value (by simp)]; simp only [List.count_append]; omega
 theorem rBody_count (body : FuncBody) (o : Out) (c : Ctx) (env : Env) (selfTok : Option Tok) :
-    (reads (rBody o c env selfTok body)).count a = (reads o).count a + (sBody env selfTok body).count a := by
+    (log (rBody o c env selfTok body)).count a = (log o).count a + (sBody env selfTok body).count a := by
   cases body with
   | mk _ params b =>
     cases selfTok with
     | none =>
-      show (reads (rBlock (declareParams o (if hasDots params then env else ("...", none) :: env) params []).1
+      show (log (rBlock (declareParams o (("...", none) :: env) params []).1
           { inFunction := true, depth := c.depth + 1 }
-          (declareParams o (if hasDots params then env else ("...", none) :: env) params []).2 b).1).count a =
-        (reads o).count a + (sBlock true (bindParams (if hasDots params then env else ("...", none) :: env) params) b).1.count a
-      obtain ⟨h1, h2⟩ := declareParams_spec params o (if hasDots params then env else ("...", none) :: env) []
-      rw [(rBlock_count b _ _ _).1, reads_congr h1, h2]
+          (declareParams o (("...", none) :: env) params []).2 b).1).count a =
+        (log o).count a + ([] ++ sDeclParams (("...", none) :: env) params ++
+          (sBlock true (bindParams (("...", none) :: env) params) b).1).count a
+      obtain ⟨h1, h2⟩ := declareParams_spec a params o (("...", none) :: env) []
+      rw [(rBlock_count b _ _ _).1, h1, h2]
+      simp only [List.count_append, List.nil_append]; omega
     | some m =>
-      show (reads (rBlock (declareParams (declare o env m "self" .self_ []).1
-            (if hasDots params then bindTok env m "self" .self_ else ("...", none) :: bindTok env m "self" .self_) params []).1
+      show (log (rBlock (declareParams (declare o env m "self" .self_ []).1
+            (("...", none) :: bindTok env m "self" .self_) params []).1
           { inFunction := true, depth := c.depth + 1 }
           (declareParams (declare o env m "self" .self_ []).1
-            (if hasDots params then bindTok env m "self" .self_ else ("...", none) :: bindTok env m "self" .self_) params []).2 b).1).count a =
-        (reads o).count a + (sBlock true (bindParams
-          (if hasDots params then bindTok env m "self" .self_ else ("...", none) :: bindTok env m "self" .self_) params) b).1.count a
-      obtain ⟨h1, h2⟩ := declareParams_spec params (declare o env m "self" .self_ []).1
-        (if hasDots params then bindTok env m "self" .self_ else ("...", none) :: bindTok env m "self" .self_) []
-      rw [(rBlock_count b _ _ _).1, reads_congr h1, h2]
-      rfl
+            (("...", none) :: bindTok env m "self" .self_) params []).2 b).1).count a =
+        (log o).count a + (sDecl env m "self" ++ sDeclParams (("...", none) :: bindTok env m "self" .self_) params ++
+          (sBlock true (bindParams (("...", none) :: bindTok env m "self" .self_) params) b).1).count a
+      obtain ⟨h1, h2⟩ := declareParams_spec a params (declare o env m "self" .self_ []).1
+        (("...", none) :: bindTok env m "self" .self_) []
+      rw [(rBlock_count b _ _ _).1, h1, h2, log_declare a o env m "self" .self_ [] (by simp)]
+      simp only [List.count_append]; omega
 theorem rBlock_count (b : Block) (o : Out) (c : Ctx) (env : Env) :
-    (reads (rBlock o c env b).1).count a = (reads o).count a + (sBlock c.inFunction env b).1.count a ∧
+    (log (rBlock o c env b).1).count a = (log o).count a + (sBlock c.inFunction env b).1.count a ∧
     (rBlock o c env b).2 = (sBlock c.inFunction env b).2 := by
   cases b with
   | mk _ stmts last =>
@@ -258,109 +326,109 @@ theorem rBlock_count (b : Block) (o : Out) (c : Ctx) (env : Env) :
     | brk _ => exact ⟨h1, h2⟩
     | ret _ es =>
       refine ⟨?_, h2⟩
-      show (reads (rExprs (rStmts o c env stmts).1 c (rStmts o c env stmts).2 es)).count a = (reads o).count a +
+      show (log (rExprs (rStmts o c env stmts).1 c (rStmts o c env stmts).2 es)).count a = (log o).count a +
         ((sStmts c.inFunction env stmts).1 ++ eEs c.inFunction (sStmts c.inFunction env stmts).2 es ++
           dEs c.inFunction (sStmts c.inFunction env stmts).2 es).count a
       rw [rExprs_count es, h1, h2]; simp only [List.count_append]; omega
 theorem rStmts_count (l : StmtList) (o : Out) (c : Ctx) (env : Env) :
-    (reads (rStmts o c env l).1).count a = (reads o).count a + (sStmts c.inFunction env l).1.count a ∧
+    (log (rStmts o c env l).1).count a = (log o).count a + (sStmts c.inFunction env l).1.count a ∧
     (rStmts o c env l).2 = (sStmts c.inFunction env l).2 := by
   cases l with
-  | nil => exact ⟨by show (reads o).count a = (reads o).count a + ([] : List Ans).count a; simp, rfl⟩
+  | nil => exact ⟨by show (log o).count a = (log o).count a + ([] : List Ans).count a; simp, rfl⟩
   | cons s rest =>
     obtain ⟨h1, h2⟩ := rStmt_count s o c env
     obtain ⟨h3, h4⟩ := rStmts_count rest (rStmt o c env s).1 c (rStmt o c env s).2
     refine ⟨?_, ?_⟩
-    · show (reads (rStmts (rStmt o c env s).1 c (rStmt o c env s).2 rest).1).count a = (reads o).count a +
+    · show (log (rStmts (rStmt o c env s).1 c (rStmt o c env s).2 rest).1).count a = (log o).count a +
         ((sStmt c.inFunction env s).1 ++ (sStmts c.inFunction (sStmt c.inFunction env s).2 rest).1).count a
       rw [h3, h1, h2]; simp only [List.count_append]; omega
     · show (rStmts (rStmt o c env s).1 c (rStmt o c env s).2 rest).2 = (sStmts c.inFunction (sStmt c.inFunction env s).2 rest).2
       rw [h4, h2]
 theorem rTargets_count (vars : VarList) (o : Out) (c : Ctx) (env : Env) :
-    (reads (rTargets o c env vars)).count a =
-      (reads o).count a + (tV c.inFunction env vars).count a + (dVs c.inFunction env vars).count a := by
+    (log (rTargets o c env vars)).count a =
+      (log o).count a + (tV c.inFunction env vars).count a + (dVs c.inFunction env vars).count a := by
   cases vars with
-  | nil => show (reads o).count a = (reads o).count a + ([] : List Ans).count a + ([] : List Ans).count a; simp
+  | nil => show (log o).count a = (log o).count a + ([] : List Ans).count a + ([] : List Ans).count a; simp
   | cons v rest =>
     cases v with
     | name t =>
-      have hr : ∀ o' : Out, o'.occs = (o.occ c env t .target).occs → (reads (rTargets o' c env rest)).count a =
-          (reads o).count a + (tV c.inFunction env rest).count a + (dVs c.inFunction env rest).count a := by
+      have hr : ∀ o' : Out, (o'.occs = (o.occ c env t .target).occs ∧ o'.decls = (o.occ c env t .target).decls) → (log (rTargets o' c env rest)).count a =
+          (log o).count a + (tV c.inFunction env rest).count a + (dVs c.inFunction env rest).count a := by
         intro o' ho
-        rw [rTargets_count rest, reads_congr ho, reads_occ_target]
-      show (reads (rTargets (if (env.lookup t.text).isNone then _ else _) c env rest)).count a = (reads o).count a +
+        rw [rTargets_count rest, log_congr ho.1 ho.2, log_occ_target]
+      show (log (rTargets (if (env.lookup t.text).isNone then _ else _) c env rest)).count a = (log o).count a +
         (([] : List Ans) ++ tV c.inFunction env rest).count a + (([] : List Ans) ++ dVs c.inFunction env rest).count a
       simp only [List.nil_append]
       split
-      · exact hr _ rfl
-      · exact hr _ rfl
+      · exact hr _ ⟨rfl, rfl⟩
+      · exact hr _ ⟨rfl, rfl⟩
     | expr vsp p ss =>
-      show (reads (rTargets (rVar o c env (.expr vsp p ss) .indexedTarget) c env rest)).count a = (reads o).count a +
+      show (log (rTargets (rVar o c env (.expr vsp p ss) .indexedTarget) c env rest)).count a = (log o).count a +
         (eV c.inFunction env (.expr vsp p ss) ++ tV c.inFunction env rest).count a +
         (dV c.inFunction env (.expr vsp p ss) ++ dVs c.inFunction env rest).count a
       rw [rTargets_count rest, rVar_count (.expr vsp p ss) o c env .indexedTarget (by simp)]
       simp only [List.count_append]; omega
 theorem rElseIfs_count (l : ElseIfList) (o : Out) (c : Ctx) (env : Env) :
-    (reads (rElseIfs o c env l)).count a = (reads o).count a + (sElifs c.inFunction env l).count a := by
+    (log (rElseIfs o c env l)).count a = (log o).count a + (sElifs c.inFunction env l).count a := by
   cases l with
-  | nil => show (reads o).count a = (reads o).count a + ([] : List Ans).count a; simp
+  | nil => show (log o).count a = (log o).count a + ([] : List Ans).count a; simp
   | cons e rest =>
     cases e with
     | mk _ cond b =>
-      show (reads (rElseIfs (rBlock (rExpr o c env cond) { c with depth := c.depth + 1 } env b).1 c env rest)).count a =
-        (reads o).count a + (eE c.inFunction env cond ++ dE c.inFunction env cond ++
+      show (log (rElseIfs (rBlock (rExpr o c env cond) { c with depth := c.depth + 1 } env b).1 c env rest)).count a =
+        (log o).count a + (eE c.inFunction env cond ++ dE c.inFunction env cond ++
           (sBlock c.inFunction env b).1 ++ sElifs c.inFunction env rest).count a
       rw [rElseIfs_count rest, (rBlock_count b _ _ _).1, rExpr_count cond]
       simp only [List.count_append]; omega
 theorem rStmt_count (s : Stmt) (o : Out) (c : Ctx) (env : Env) :
-    (reads (rStmt o c env s).1).count a = (reads o).count a + (sStmt c.inFunction env s).1.count a ∧
+    (log (rStmt o c env s).1).count a = (log o).count a + (sStmt c.inFunction env s).1.count a ∧
     (rStmt o c env s).2 = (sStmt c.inFunction env s).2 := by
   cases s with
   | assign _ vars es =>
     refine ⟨?_, rfl⟩
-    show (reads (rTargets (rExprs o c env es) c env vars)).count a = (reads o).count a +
+    show (log (rTargets (rExprs o c env es) c env vars)).count a = (log o).count a +
       (sTargets c.inFunction env vars es ++ dVs c.inFunction env vars ++ dEs c.inFunction env es).count a
     rw [rTargets_count vars, rExprs_count es]
     simp only [List.count_append, sTargets_count]; omega
   | localAssign _ names es =>
-    obtain ⟨h1, h2⟩ := declareAll_spec .local_ names (rExprs o c env es) env []
+    obtain ⟨h1, h2⟩ := declareAll_spec a .local_ (by simp) names (rExprs o c env es) env []
     refine ⟨?_, h2⟩
-    show (reads (declareAll (rExprs o c env es) env .local_ names []).1).count a = (reads o).count a +
-      (eEs c.inFunction env es ++ dEs c.inFunction env es).count a
-    rw [reads_congr h1, rExprs_count es]; simp only [List.count_append]; omega
+    show (log (declareAll (rExprs o c env es) env .local_ names []).1).count a = (log o).count a +
+      (eEs c.inFunction env es ++ dEs c.inFunction env es ++ sDeclAll env .local_ names).count a
+    rw [h1, rExprs_count es]; simp only [List.count_append]; omega
   | call f =>
     cases f with
     | mk fsp p ss =>
       refine ⟨?_, rfl⟩
-      show (reads (rSuffixes (rPrefix o c env p .value) c env ss)).count a = (reads o).count a +
+      show (log (rSuffixes (rPrefix o c env p .value) c env ss)).count a = (log o).count a +
         (eP c.inFunction env p ++ dP c.inFunction env p ++ sSs c.inFunction env ss).count a
       rw [rSuffixes_count ss, rPrefix_count p o c env .value (by simp)]
       simp only [List.count_append, sSs_count]; omega
   | do_ _ b => exact ⟨(rBlock_count b o { c with depth := c.depth + 1 } env).1, rfl⟩
   | while_ _ cond b =>
     refine ⟨?_, rfl⟩
-    show (reads (rBlock (rExpr o c env cond) { c with depth := c.depth + 1 } env b).1).count a = (reads o).count a +
+    show (log (rBlock (rExpr o c env cond) { c with depth := c.depth + 1 } env b).1).count a = (log o).count a +
       (eE c.inFunction env cond ++ dE c.inFunction env cond ++ (sBlock c.inFunction env b).1).count a
     rw [(rBlock_count b _ _ _).1, rExpr_count cond]; simp only [List.count_append]; omega
   | repeat_ _ b cond =>
     refine ⟨?_, rfl⟩
     obtain ⟨h1, h2⟩ := rBlock_count b o { c with depth := c.depth + 1 } env
-    show (reads (rExpr (rBlock o { c with depth := c.depth + 1 } env b).1 c (rBlock o { c with depth := c.depth + 1 } env b).2 cond)).count a =
-      (reads o).count a + ((sBlock c.inFunction env b).1 ++ dE c.inFunction (sBlock c.inFunction env b).2 cond ++
+    show (log (rExpr (rBlock o { c with depth := c.depth + 1 } env b).1 c (rBlock o { c with depth := c.depth + 1 } env b).2 cond)).count a =
+      (log o).count a + ((sBlock c.inFunction env b).1 ++ dE c.inFunction (sBlock c.inFunction env b).2 cond ++
         eE c.inFunction (sBlock c.inFunction env b).2 cond).count a
     rw [rExpr_count cond, h1, h2]; simp only [List.count_append]; omega
   | if_ _ cond b elifs els =>
     refine ⟨?_, rfl⟩
     cases els with
     | none =>
-      show (reads (rElseIfs (rBlock (rExpr o c env cond) { c with depth := c.depth + 1 } env b).1 c env elifs)).count a =
-        (reads o).count a + (eE c.inFunction env cond ++ dE c.inFunction env cond ++ (sBlock c.inFunction env b).1 ++
+      show (log (rElseIfs (rBlock (rExpr o c env cond) { c with depth := c.depth + 1 } env b).1 c env elifs)).count a =
+        (log o).count a + (eE c.inFunction env cond ++ dE c.inFunction env cond ++ (sBlock c.inFunction env b).1 ++
           sElifs c.inFunction env elifs ++ []).count a
       rw [rElseIfs_count elifs, (rBlock_count b _ _ _).1, rExpr_count cond]; simp only [List.count_append, List.count_nil]; omega
     | some eb =>
-      show (reads (rBlock (rElseIfs (rBlock (rExpr o c env cond) { c with depth := c.depth + 1 } env b).1 c env elifs)
+      show (log (rBlock (rElseIfs (rBlock (rExpr o c env cond) { c with depth := c.depth + 1 } env b).1 c env elifs)
           { c with depth := c.depth + 1 } env eb).1).count a =
-        (reads o).count a + (eE c.inFunction env cond ++ dE c.inFunction env cond ++ (sBlock c.inFunction env b).1 ++
+        (log o).count a + (eE c.inFunction env cond ++ dE c.inFunction env cond ++ (sBlock c.inFunction env b).1 ++
           sElifs c.inFunction env elifs ++ (sBlock c.inFunction env eb).1).count a
       rw [(rBlock_count eb _ _ _).1, rElseIfs_count elifs, (rBlock_count b _ _ _).1, rExpr_count cond]
       simp only [List.count_append]; omega
@@ -368,78 +436,87 @@ theorem rStmt_count (s : Stmt) (o : Out) (c : Ctx) (env : Env) :
     refine ⟨?_, rfl⟩
     cases step with
     | none =>
-      show (reads (rBlock _ { c with depth := c.depth + 1 } (bindTok env v v.text .loopVar) b).1).count a =
-        (reads o).count a + (eE c.inFunction env start ++ eE c.inFunction env stop ++ [] ++
+      show (log (rBlock _ { c with depth := c.depth + 1 } (bindTok env v v.text .loopVar) b).1).count a =
+        (log o).count a + (eE c.inFunction env start ++ eE c.inFunction env stop ++ [] ++
           dE c.inFunction env start ++ dE c.inFunction env stop ++ [] ++
-          (sBlock c.inFunction (bindTok env v v.text .loopVar) b).1).count a
-      rw [(rBlock_count b _ _ _).1]
-      change (reads (rExpr (rExpr o c env start) c env stop)).count a + _ = _
+          sDecl env v v.text ++ (sBlock c.inFunction (bindTok env v v.text .loopVar) b).1).count a
+      refine Eq.trans (rBlock_count b _ _ _).1 ?_
+      refine Eq.trans (congrArg (· + _) (log_declare' a (rExpr (rExpr o c env start) c env stop) _ env v v.text .loopVar [] (by simp) rfl rfl)) ?_
       rw [rExpr_count stop, rExpr_count start]
       simp only [List.count_append, List.count_nil]; omega
     | some st =>
-      show (reads (rBlock _ { c with depth := c.depth + 1 } (bindTok env v v.text .loopVar) b).1).count a =
-        (reads o).count a + (eE c.inFunction env start ++ eE c.inFunction env stop ++ eE c.inFunction env st ++
+      show (log (rBlock _ { c with depth := c.depth + 1 } (bindTok env v v.text .loopVar) b).1).count a =
+        (log o).count a + (eE c.inFunction env start ++ eE c.inFunction env stop ++ eE c.inFunction env st ++
           dE c.inFunction env start ++ dE c.inFunction env stop ++ dE c.inFunction env st ++
-          (sBlock c.inFunction (bindTok env v v.text .loopVar) b).1).count a
-      rw [(rBlock_count b _ _ _).1]
-      change (reads (rExpr (rExpr (rExpr o c env start) c env stop) c env st)).count a + _ = _
+          sDecl env v v.text ++ (sBlock c.inFunction (bindTok env v v.text .loopVar) b).1).count a
+      refine Eq.trans (rBlock_count b _ _ _).1 ?_
+      refine Eq.trans (congrArg (· + _) (log_declare' a (rExpr (rExpr (rExpr o c env start) c env stop) c env st) _ env v v.text .loopVar [] (by simp) rfl rfl)) ?_
       rw [rExpr_count st, rExpr_count stop, rExpr_count start]
       simp only [List.count_append]; omega
   | genFor _ names es b =>
     refine ⟨?_, rfl⟩
-    have key : ∀ o' : Out, o'.occs = (rExprs o c env es).occs →
-        (reads (rBlock (declareAll o' env .loopVar names []).1 { c with depth := c.depth + 1 }
+    have key : ∀ o' : Out, (o'.occs = (rExprs o c env es).occs ∧ o'.decls = (rExprs o c env es).decls) →
+        (log (rBlock (declareAll o' env .loopVar names []).1 { c with depth := c.depth + 1 }
           (declareAll o' env .loopVar names []).2 b).1).count a =
-        (reads o).count a + (eEs c.inFunction env es ++ dEs c.inFunction env es ++
+        (log o).count a + (eEs c.inFunction env es ++ dEs c.inFunction env es ++ sDeclAll env .loopVar names ++
           (sBlock c.inFunction (bindAll env .loopVar names) b).1).count a := by
       intro o' ho
-      obtain ⟨h1, h2⟩ := declareAll_spec .loopVar names o' env []
-      rw [(rBlock_count b _ _ _).1, reads_congr h1, reads_congr ho, h2, rExprs_count es]
+      obtain ⟨h1, h2⟩ := declareAll_spec a .loopVar (by simp) names o' env []
+      rw [(rBlock_count b _ _ _).1, h1, log_congr ho.1 ho.2, h2, rExprs_count es]
       simp only [List.count_append]; omega
     refine key (match es.toList with
       | [] => rExprs o c env es
       | e :: rest => { rExprs o c env es with loopHeaders := (⟨e.span.first, (rest.getLast?.getD e).span.last⟩, names.map (·.idx)) :: (rExprs o c env es).loopHeaders }) ?_
-    split <;> rfl
+    split <;> exact ⟨rfl, rfl⟩
   | func _ name body =>
     obtain ⟨nsp, names, method⟩ := name
     cases names with
-    | nil => exact ⟨by show (reads o).count a = (reads o).count a + ([] : List Ans).count a; simp, rfl⟩
+    | nil => exact ⟨by show (log o).count a = (log o).count a + ([] : List Ans).count a; simp, rfl⟩
     | cons base more =>
       refine ⟨?_, rfl⟩
-      show (reads (rBody (if (!more.isEmpty || method.isSome) = true then o.occ c env base .indexedTarget
+      show (log (rBody (if (!more.isEmpty || method.isSome) = true then o.occ c env base .indexedTarget
           else if (env.lookup base.text).isNone = true then _ else o.occ c env base .target) c env method body)).count a =
-        (reads o).count a + ((if (!more.isEmpty || method.isSome) = true then sRead c.inFunction env base else []) ++
+        (log o).count a + ((if (!more.isEmpty || method.isSome) = true then sRead c.inFunction env base else []) ++
           sBody env method body).count a
       rw [rBody_count body]
       cases hl : (!more.isEmpty || method.isSome)
       · simp only [Bool.false_eq_true, if_false]
-        have hr : reads (if (env.lookup base.text).isNone = true then
+        have hr : log (if (env.lookup base.text).isNone = true then
             { o.occ c env base .target with
               anyAssigned := base.text :: (o.occ c env base .target).anyAssigned,
               topAssigned := if c.depth = 0 then base.text :: (o.occ c env base .target).topAssigned
                 else (o.occ c env base .target).topAssigned }
-          else o.occ c env base .target) = reads o := by
+          else o.occ c env base .target) = log o := by
           split
-          · exact (reads_congr rfl).trans (reads_occ_target o c env base)
-          · exact reads_occ_target o c env base
+          · exact (log_congr rfl rfl).trans (log_occ_target o c env base)
+          · exact log_occ_target o c env base
         rw [hr]; simp
       · simp only [if_true]
-        rw [reads_occ _ _ _ _ _ (by simp)]; simp only [List.count_append]; omega
+        rw [log_occ a _ _ _ _ _ (by simp)]; simp only [List.count_append]; omega
   | localFunc _ name body =>
     refine ⟨?_, rfl⟩
-    show (reads (rBody (declare o env name name.text .localFunc []).1 c (bindTok env name name.text .localFunc) none body)).count a =
-      (reads o).count a + (sBody (bindTok env name name.text .localFunc) none body).count a
-    rw [rBody_count body]; rfl
-  | unsupported _ => exact ⟨by show (reads o).count a = (reads o).count a + ([] : List Ans).count a; simp, rfl⟩
+    show (log (rBody (declare o env name name.text .localFunc []).1 c (bindTok env name name.text .localFunc) none body)).count a =
+      (log o).count a + (sDecl env name name.text ++ sBody (bindTok env name name.text .localFunc) none body).count a
+    rw [rBody_count body, log_declare a o env name name.text .localFunc [] (by simp)]
+    simp only [List.count_append]; omega
+  | unsupported _ => exact ⟨by show (log o).count a = (log o).count a + ([] : List Ans).count a; simp, rfl⟩
 end
 end
 
-/-- the counted reads of the whole chunk, as a multiset -/
-theorem resolve_count (a : Ans) (b : Block) : (reads (resolve b)).count a = (chunk b).count a := by
+/-- everything the resolver answers about the whole chunk, as a multiset -/
+theorem resolve_count (a : Ans) (b : Block) : (log (resolve b)).count a = (chunk b).count a := by
   have := (rBlock_count a b {} { inFunction := false, depth := 0 } []).1
-  simpa [resolve, chunk, reads] using this
+  simpa [resolve, chunk, log, readsOf, declsOf] using this
 
-theorem resolve_perm (b : Block) : (reads (resolve b)).Perm (chunk b) :=
+theorem resolve_perm (b : Block) : (log (resolve b)).Perm (chunk b) :=
   List.perm_iff_count.mpr fun a => resolve_count a b
+
+/-! ### projections of the log -/
+
+theorem log_reads (o : Out) : (log o).filterMap Core.Ans.readOf = reads o := by
+  simp [log, readsOf, declsOf, reads, List.filterMap_append, List.filterMap_map, Core.Ans.readOf, Function.comp_def]
+
+theorem log_shadows (o : Out) : (log o).filterMap Core.Ans.declOf = shadows o := by
+  simp [log, readsOf, declsOf, shadows, List.filterMap_append, List.filterMap_map, Core.Ans.declOf, Function.comp_def]
 
 end Selene.Scope.SpecProof
